@@ -484,7 +484,7 @@ def make_model(desc):
 
 def export_histories(tier):
     from ..history import bfs
-    return bfs(ExportHistories(), 3 if tier == "thorough" else 2, budget_s=1500 if tier == "thorough" else 150)
+    return bfs(ExportHistories(), 3 if tier == "thorough" else 2, budget_s=1500 if tier == "thorough" else 1500)
 
 
 _st = Part("needle-selftest", h_needle_selftest, split_depth=1)
@@ -492,7 +492,7 @@ _pu = Part("public-only-keys", h_public_only, split_depth=2)
 _pu.single_bucket_ok = True
 _st.single_bucket_ok = True
 PARTS = [
-    Part("outputs", h_outputs, split_depth=2, budget={"quick": 120, "thorough": 1200}),
+    Part("outputs", h_outputs, split_depth=2, budget={"quick": 1200, "thorough": 1200}),
     _st, _pu,
     Part("export-histories", custom=export_histories, engine="E2"),
 ]
